@@ -89,9 +89,15 @@ class ConnMan:
         """
         Helper function for in-place update of bus connectivity.
         """
-        self.changes['on'][...] = np.logical_and(self.busu0 == 0, self.system.Bus.u.v == 1)
-        self.changes['off'][...] = np.logical_and(self.busu0 == 1, self.system.Bus.u.v == 0)
-        self.busu0[...] = self.system.Bus.u.v
+        busu = self.system.Bus.u.v
+        off = np.logical_and(self.busu0 == 1, busu == 0)
+        if self.is_needed:
+            # keep the changes recorded earlier that have not been acted on yet
+            off = np.logical_or(off, np.logical_and(self.changes['off'] == 1, busu == 0))
+
+        self.changes['on'][...] = np.logical_and(self.busu0 == 0, busu == 1)
+        self.changes['off'][...] = off
+        self.busu0[...] = busu
 
     def record(self):
         """
